@@ -381,6 +381,15 @@ def enum_infer_long(tier):
             yield {'pv': lists, 'off': 0}                                               # (saiai...ai)
         mixed = ['tuple', [['w', 'y', 5]] + [['int', i % 3] for i in range(total - 4)] + [['w', 't', 2**40]]]
         yield {'pv': mixed, 'off': 1}
+    # containers that are big in BYTES (an array may hold up to 2^26 bytes of element data): blobs and long lists around
+    # 64 KiB, alone, as a dict value and inside a heterogeneous list
+    for nbytes in (65535, 65536, 65537, 70001):
+        blob = ['ba', '5a' * nbytes]
+        yield {'pv': blob, 'off': 0}
+        yield {'pv': ['dict', [[['str', 'blob'], blob]]], 'off': 3}
+    yield {'pv': ['list', [['int', i % 100] for i in range(20000)]], 'off': 0}
+    yield {'pv': ['list', [['list', [['float', '3ff0000000000000'] for _ in range(9000)]], ['str', 'x']]], 'off': 5}
+    yield {'pv': ['tuple', [['list', [['str', 'element-%d' % i] for i in range(4000)]], ['int', 1]]], 'off': 0}
 
 
 def _count_big(node):
@@ -420,5 +429,6 @@ SUBCHECKS = [
              n={'quick': 700, 'thorough': 6000}),
     Subcheck('infer_long', run_infer, lambda c: (True, ['inferred_signature_250_255']), enumerate=enum_infer_long,
              shards={'quick': 2, 'thorough': 2},
-             exhaustive_note='wide structs whose inferred signature has exactly 250..255 characters (the limit), in four shapes'),
+             exhaustive_note='wide structs whose inferred signature has exactly 250..255 characters (the limit), in four shapes; '
+                             'blobs and lists of 64-70 KiB of element data, alone and nested'),
 ]
